@@ -7,6 +7,7 @@ package main
 
 import (
 	"fmt"
+	"sort"
 	"strings"
 )
 
@@ -48,11 +49,83 @@ func seedModel() map[string]*modelRec {
 	j1, _ := parseJSONObject([]byte(`{"a":1,"s":"x"}`))
 	j2, _ := parseJSONObject([]byte(`{"a":0}`))
 	live, _ := parseJSONObject([]byte(`{"live":true}`))
-	return map[string]*modelRec{
+	m := map[string]*modelRec{
 		"tdb:j1":   {known: true, obj: j1},
 		"tdb:j2":   {known: true, obj: j2},
 		"tdb:live": {known: true, obj: live},
 	}
+	for i := 0; i < 8; i++ {
+		obj, _ := parseJSONObject(comboContent(i))
+		m[comboKey(i)] = &modelRec{known: true, obj: obj}
+	}
+	return m
+}
+
+// The records tdb:n/0 .. tdb:n/7 hold every combination of the fields a, b, c
+// (plus z), so that where-clauses over "exists" terms have distinct result sets.
+func comboKey(i int) string { return fmt.Sprintf("tdb:n/%d", i) }
+
+func comboContent(i int) []byte {
+	s := `{"z":1`
+	for bit, f := range []string{"a", "b", "c"} {
+		if i&(1<<bit) != 0 {
+			s += fmt.Sprintf(`,%q:1`, f)
+		}
+	}
+	return []byte(s + "}")
+}
+
+// checkResultSet compares the ok replies of a finished query with the records
+// that match the query as documented (only for where-clauses the reference
+// understands and only while the content of every record under the prefix is known).
+func checkResultSet(jd *judged, k int, st StepRec, kind string, text string, rs []Reply, model map[string]*modelRec) {
+	sq := parseSubQuery(text)
+	if !sq.Understood || sq.Expr == nil || len(rs) == 0 || rs[len(rs)-1].Type != "done" {
+		return
+	}
+	want := map[string]bool{}
+	for key, mr := range model {
+		db, dbKey := splitKey(key)
+		if db != sq.DB || !strings.HasPrefix(dbKey, sq.Prefix) {
+			continue
+		}
+		if !mr.known {
+			return
+		}
+		if sq.Expr.eval(mr.obj) {
+			want[key] = true
+		}
+	}
+	got := map[string]int{}
+	for _, r := range rs {
+		if r.Type == "ok" {
+			key, _ := r.keyAndData()
+			got[key]++
+		}
+	}
+	var missing, extra []string
+	for key := range want {
+		if got[key] == 0 {
+			missing = append(missing, key)
+		}
+	}
+	for key, n := range got {
+		if !want[key] || n > 1 {
+			extra = append(extra, key)
+		}
+	}
+	sort.Strings(missing)
+	sort.Strings(extra)
+	if len(missing) == 0 && len(extra) == 0 {
+		return
+	}
+	disc := "wrong-records"
+	if len(extra) == 0 {
+		disc = "missing-records"
+	} else if len(missing) == 0 {
+		disc = "non-matching-records"
+	}
+	jd.viols = append(jd.viols, V{"query-result-set", kind, disc, fmt.Sprintf("step %d: %s answered ok for records that do not match (or twice): %v; matching records not answered: %v", k, q(st.Msg), extra, missing)})
 }
 
 func typesOf(rs []Reply) string {
@@ -357,8 +430,21 @@ func judge(res *Result) *judged {
 					switch {
 					case db != s.q.DB || !strings.HasPrefix(dbKey, s.q.Prefix):
 						e.level = 0
-					case !s.q.CondAGt0:
+					case !s.q.CondAGt0 && s.q.Expr == nil:
 						e.level = 2
+					case s.q.Expr != nil:
+						// the record as notified: the new content, for a delete the content it had
+						ref := now
+						if rq.Kind == kDelete {
+							ref = old
+						}
+						e.level = 1
+						if ref != nil && ref.known {
+							e.level = 0
+							if s.q.Expr.eval(ref.obj) {
+								e.level = 2
+							}
+						}
 					case rq.Kind == kDelete:
 						e.level = 1
 					case now != nil && now.known:
@@ -380,6 +466,7 @@ func judge(res *Result) *judged {
 
 		case kQuery:
 			checkQueryPart(jd, k, st, rq.Kind, rs, true)
+			checkResultSet(jd, k, st, rq.Kind, rq.Arg, rs, model)
 			jd.outcomes = append(jd.outcomes, label+":"+compress(rs))
 
 		case kSub, kQsub:
@@ -401,6 +488,7 @@ func judge(res *Result) *judged {
 					rest = nil
 				} else {
 					checkQueryPart(jd, k, st, kQsub, rs[:cut+1], false)
+					checkResultSet(jd, k, st, kQsub, rq.Arg, rs[:cut+1], model)
 					failed = rs[cut].Type == "error"
 					rest = rs[cut+1:]
 				}
